@@ -34,7 +34,7 @@ def marshal(
     return unmarshalled
 
 
-@compat.cache
+@refs.cache
 def marshaller(
     t: type[T] | refs.ForwardRef | compat.TypeAliasType | str,
 ) -> routines.AbstractMarshaller[T]:
